@@ -5,6 +5,7 @@ import (
 	"log"
 	"sync"
 	"sync/atomic"
+	"time"
 
 	"google.golang.org/grpc"
 	"google.golang.org/grpc/backoff"
@@ -46,7 +47,10 @@ func NewRawManager(opts ...ManagerOption) *RawManager {
 	))
 	if m.opts.backoff != backoff.DefaultConfig {
 		m.opts.grpcDialOpts = append(m.opts.grpcDialOpts, grpc.WithConnectParams(
-			grpc.ConnectParams{Backoff: m.opts.backoff},
+			// WithConnectParams replaces all connection parameters: keep gRPC's
+			// default minimum time for a connection attempt, which would
+			// otherwise be capped at the backoff delay.
+			grpc.ConnectParams{Backoff: m.opts.backoff, MinConnectTimeout: 20 * time.Second},
 		))
 	}
 	if m.logger != nil {
